@@ -25,6 +25,9 @@ pub uninterp spec fn int_or(a: int, b: int) -> int;
 
 pub uninterp spec fn int_xor(a: int, b: int) -> int;
 
+/// the numeral of an integer in the given radix
+pub uninterp spec fn radix_text(i: int, radix: int) -> Seq<char>;
+
 /// value of a digit string in the given radix, None if it is not one
 pub uninterp spec fn radix_value(s: Seq<char>, radix: int) -> Option<int>;
 
@@ -62,6 +65,17 @@ impl NumInt {
     pub fn pow(&self, exponent: u32) -> (r: NumInt)
         ensures
             r@ == pow(self@, exponent as nat),
+    {
+        unimplemented!()
+    }
+
+    /// BigInt::to_str_radix
+    #[verifier::external_body]
+    pub fn to_str_radix(&self, radix: u32) -> (r: String)
+        requires
+            2 <= radix <= 36,
+        ensures
+            r@ == radix_text(self@, radix as int),
     {
         unimplemented!()
     }
